@@ -36,7 +36,8 @@ def labels(rng, sh, ty, op, second):
         pool = list(range(NPOOL))
         if op in ("bitwise_and", "bitwise_or", "bitwise_xor", "left_shift", "right_shift"):
             # floats go through an integer cast: small magnitudes (negative and fractional ones included), shift counts 0..3
-            pool = [0, 2, 4, 7] if (second and "shift" in op) else [0, 2, 3, 4, 5, 6, 7, 14, 15, 18, 19]
+            # (labels 30..33: exact integers of magnitude >= 2^63 — seeded change C04k narrowed the f64 carrier to i64)
+            pool = [0, 2, 4, 7] if (second and "shift" in op) else [0, 2, 3, 4, 5, 6, 7, 14, 15, 18, 19, 30, 31, 32, 33]
         return [rng.choice(pool) for _ in range(n)]
     # integer labels: small values, domain restrictions per operation
     if op in ("left_shift", "right_shift"):
@@ -63,7 +64,8 @@ def ew2_line(op, ty, s1, e1, s2, e2):
 
 def agree(case, impl, model):
     if case.startswith("ew2@"):
-        return vlib.table_agree(impl, model, 2)
+        op = bytes.fromhex(case.split(" ")[1][1:]).decode()
+        return vlib.table_agree(impl, model, 2, zero_sign=op in ("add", "subtract", "multiply", "divide", "true_divide", "copysign"))
     return None
 
 
@@ -121,6 +123,11 @@ def gen(seed, tier):
             zero_labels = {"f64p": [0, 1], "f32p": [0, 1, 10]}[ty]
             e2 = [l for l in range(NPOOL) if not (op in GUARD and l in zero_labels)]
             out.append(ew2_line(op, ty, [NPOOL, 1], list(range(NPOOL)), [len(e2)], e2))
+    # every pair of a set of labels that holds the huge integers, for the float bitwise operations and shifts
+    for op in ("bitwise_and", "bitwise_or", "bitwise_xor", "left_shift", "right_shift"):
+        first = [0, 2, 3, 4, 7, 14, 15, 18, 30, 31, 32, 33]
+        second = [0, 2, 4, 7] if "shift" in op else first
+        out.append(ew2_line(op, "f64p", [len(first), 1], first, [len(second)], second))
     # values against the Z instances
     for op in ZMODEL:
         for k, (s1, s2) in enumerate(pairs):
